@@ -51,6 +51,21 @@ theorem varintLen_uquic_model_is_source (v : Int) (h : v ≤ 4611686018427387903
   unfold Uquic.Model.UQuic.Frames.varintLen varintLen
   tie_arith
 
+/-- for ANY integer: the translated `Len` returns 1 exactly up to 63 … -/
+theorem varintLen_eq_one_iff (x : Int) : varintLen x = 1 ↔ x ≤ 63 := by
+  unfold varintLen; tie_arith
+
+/-- … and panics exactly above 2^62-1 -/
+theorem varintLen_panics_iff_int (x : Int) : varintLen_panics x = true ↔ x > 4611686018427387903 := by
+  unfold varintLen_panics; tie_arith
+
+theorem varintLen_panics_false_iff (x : Int) : varintLen_panics x = false ↔ x ≤ 4611686018427387903 := by
+  unfold varintLen_panics; tie_arith
+
+theorem varintLen_send_eq_one_iff (n : Nat) : Uquic.Model.Stream.Send.varintLen n = 1 ↔ n ≤ 63 := by
+  have c1 : Uquic.Model.Stream.Send.maxVarInt1 = 63 := by decide
+  unfold Uquic.Model.Stream.Send.varintLen; tie_arith
+
 example : varintLen 16384 = 4 := by decide
 
 end Uquic.Props.TransVarint
